@@ -39,11 +39,18 @@ def plans(tier):
 
 def enum_plans(tier):
     th = tier == "thorough"
-    return [dict(cfg="TS", depth=8 if th else 7, maxtime=6 if th else 5, alpha=["cerok", "req1"], faults=True, maxconn=1),
+    from .. import nodetrace as nt
+    busy = [{"a": "connect"}, {"a": "feed", "c": 1, "ms": [nt.M("CE", True, 7, 77, oh="p1.r1", auth=[4])]},
+            {"a": "feed", "c": 1, "ms": [nt.M("APP", True, 1, 1, app=4, oh="p1.r1", realm="r1")]},
+            {"a": "feed", "c": 1, "ms": [nt.M("APP", True, 1, 2, app=4, oh="p1.r1", realm="r1")]}]
+    return [# the only slot is held for 7 s, a second request waits for it: the peer is lost (or not) at every second of the wait,
+            # before and after the application's TOO_BUSY answer
+            dict(cfg="TS7", depth=8 if th else 7, maxtime=8 if th else 7, alpha=[], faults=True, maxconn=1, prefix=busy),
+            dict(cfg="TS", depth=8 if th else 7, maxtime=6 if th else 5, alpha=["cerok", "req1"], faults=True, maxconn=1),
             dict(cfg="T1", depth=6 if th else 5, maxtime=1, alpha=["cerok", "req1", "req2", "senderr"], faults=True, maxconn=1)]
 
 
-HANDLERS = ["answer", "hold", "raise", "slow", "alt", "alt"]
+HANDLERS = ["answer", "hold", "raise", "slow", "alt", "alt"]      # (slow7 - TOO_BUSY - is enumerated with TS7: the probe's 9 s of silence assume handlers of at most 3 s)
 
 
 def fault_cfg(rng):
@@ -86,8 +93,13 @@ def run(tier, seed):
     mc, sim = plans(tier)
     th = tier == "thorough"
     # vacuity guard: the pinned pre-fix behaviours violate Serviceable / the monitor on the model
-    for pins, cfgname, alpha, depth, maxtime in ((["F14a"], "TS", ["cerok", "req1"], 8, 4), (["F14b"], "TN", ["cerok", "req1", "req2"], 5, 1)):
-        r = nc.mc_run("c14_vac_" + pins[0], cfgname, depth, maxtime, alpha, False, True, 1, ["Inv14", "Serviceable"], pinned=pins, timeout=900)
+    from .. import nodetrace as nt
+    busy = [{"a": "connect"}, {"a": "feed", "c": 1, "ms": [nt.M("CE", True, 7, 77, oh="p1.r1", auth=[4])]},
+            {"a": "feed", "c": 1, "ms": [nt.M("APP", True, 1, 1, app=4, oh="p1.r1", realm="r1")]},
+            {"a": "feed", "c": 1, "ms": [nt.M("APP", True, 1, 2, app=4, oh="p1.r1", realm="r1")]}]
+    for pins, cfgname, alpha, depth, maxtime, prefix in ((["F14a"], "TS", ["cerok", "req1"], 8, 4, ()), (["F14b"], "TN", ["cerok", "req1", "req2"], 5, 1, ()),
+                                                         (["F14c"], "TS7", [], 7, 7, busy)):
+        r = nc.mc_run("c14_vac_" + pins[0], cfgname, depth, maxtime, alpha, False, True, 1, ["Inv14", "Serviceable"], pinned=pins, timeout=900, prefix=prefix)
         if not r["violated"]:
             raise tlc.TlcError("vacuity guard failed: Node.tla with %s pinned satisfies Serviceable and Inv14" % pins)
     ck = nc.run_property("C14", tier, seed, ["Inv14", "Serviceable"], PROFILE, mc, sim, 0, ASSUME, enum_plan=enum_plans(tier))
